@@ -1,0 +1,19 @@
+//go:build verif
+
+// Contracts for govc (contract-based deductive verification, see /verif/DESIGN.md).
+// Comment-only file: it adds no code and is compiled only with -tags verif.
+
+package transpiler
+
+// Raw samples for PromQL: the read covers (From, To] on the sample timestamp -
+// a sample stamped exactly at the evaluation time is inside (Prometheus selects
+// up to and including maxt) - and the metric signal type (or untyped rows).
+//@ func (*InitClickhousePlanner).Process [C13,C17]
+//@   modifies whereArgs
+//@   check window: len(whereArgs) == 3 && isIntCmp(whereArgs[0]) && isIntCmp(whereArgs[1]) &&
+//@         opOf(whereArgs[0]) == ">" && intOf(whereArgs[0]) == ctx.From.UnixNano() &&
+//@         opOf(whereArgs[1]) == "<=" && intOf(whereArgs[1]) == ctx.To.UnixNano()
+//@   check column: typeis(unbox(whereArgs[0], "*sql.LogicalOp").clauses[0], "*sql.RawObject") &&
+//@         unbox(unbox(whereArgs[0], "*sql.LogicalOp").clauses[0], "*sql.RawObject").val == "samples.timestamp_ns" &&
+//@         unbox(unbox(whereArgs[1], "*sql.LogicalOp").clauses[0], "*sql.RawObject").val == "samples.timestamp_ns"
+//@   check signal: typeis(whereArgs[2], "*sql.In") && inInt(unbox(whereArgs[2], "*sql.In"), 0) == (ctx.Type == 0 ? 1 : ctx.Type) && inInt(unbox(whereArgs[2], "*sql.In"), 1) == 0
